@@ -466,11 +466,35 @@ func main() {
 				if !ok || len(as.Lhs) != 1 || len(as.Rhs) != 1 {
 					return true
 				}
-				id, ok := as.Lhs[0].(*ast.Ident)
-				if !ok || id.Name != "headerInfoSize" || as.Tok != token.DEFINE {
+				// independent of the variable's name: the definition whose right-hand side is `<expr> * 4`
+				if as.Tok != token.DEFINE {
 					return true
 				}
-				if b, _, ok := bitsOf(pk.TypesInfo.Types[as.Rhs[0]].Type); ok {
+				rhs := as.Rhs[0]
+				for {
+					if pe, ok := rhs.(*ast.ParenExpr); ok {
+						rhs = pe.X
+						continue
+					}
+					break
+				}
+				mul, ok := rhs.(*ast.BinaryExpr)
+				if !ok || mul.Op != token.MUL {
+					if call, okc := rhs.(*ast.CallExpr); okc && len(call.Args) == 1 { // uint32(x * 4)
+						if m2, ok2 := call.Args[0].(*ast.BinaryExpr); ok2 && m2.Op == token.MUL {
+							if v, okv := constInt(pk, m2.Y); okv && v == 4 {
+								if b, _, okb := bitsOf(pk.TypesInfo.Types[m2].Type); okb {
+									bits = b
+								}
+							}
+						}
+					}
+					return true
+				}
+				if v, okv := constInt(pk, mul.Y); !okv || v != 4 {
+					return true
+				}
+				if b, _, ok := bitsOf(pk.TypesInfo.Types[mul].Type); ok {
 					bits = b
 				}
 				return true
@@ -537,15 +561,17 @@ func main() {
 						if !ok || eq.Op != token.EQL {
 							continue
 						}
-						lhs, _ := eq.X.(*ast.Ident)
 						v, okv := constInt(pk, eq.Y)
-						if lhs == nil || !okv {
+						if !okv {
 							continue
 						}
-						if lhs.Name == "id" {
-							id = v
-						} else if lhs.Name == "tp" {
-							tp = v
+						// independent of the variables' names: the 16-bit operand is the field id, the 8-bit one the type
+						if b, _, okb := bitsOf(pk.TypesInfo.Types[eq.X].Type); okb {
+							if b == 16 {
+								id = v
+							} else if b == 8 {
+								tp = v
+							}
 						}
 					}
 					if id >= 0 && tp >= 0 {
@@ -571,7 +597,7 @@ func main() {
 				case *ast.AssignStmt: // b[off] = <const>
 					if len(x.Lhs) == 1 && len(x.Rhs) == 1 {
 						if ix, ok := x.Lhs[0].(*ast.IndexExpr); ok {
-							if id, ok := ix.Index.(*ast.Ident); ok && id.Name == "off" {
+							if _, ok := ix.Index.(*ast.Ident); ok { // b[<offset variable>] = <const>, whatever its name
 								if v, ok := constInt(pk, x.Rhs[0]); ok {
 									lastType = v
 								}
